@@ -406,6 +406,11 @@ def run(ctx):
         b, a = before[i], RC.run_result(run2[txt])
         if not run_pair_differs(b, a):
             return None
+        if b[0] == "error" and b[1].startswith("tick-limit"):
+            # the original does not end within the step budget (dbg / the hint check use steps too): the two runs are
+            # cut at different points; only demand that one output is a prefix of the other
+            if a[0] == "error" and a[1].startswith("tick-limit") and (a[2].startswith(b[2]) or b[2].startswith(a[2])):
+                return None
         cli_rechecked[0] += 1
         c1 = RC.cli_run(ctx, srcs[i], scratch, "b%s" % tag)
         c2 = RC.cli_run(ctx, txt, scratch, "a%s" % tag)
